@@ -391,3 +391,14 @@ pub fn drain<F: Fl>(slot0: usize, rx: usize, max: usize) -> u8 {
     }
     last
 }
+
+/// State injection "a reclamation-epoch announcement is pending" (what more than 20 retirements -
+/// e.g. seven add_stream/drop cycles - lead to).  Under Kani the memory manager is stubbed, so the
+/// signal bit is raised directly; in the native replay the real manager runs, so the 21 retirements
+/// are really performed (which raises the bit through MemoryManager::start_free and leaves the
+/// manager in the matching state - a bare bit would be cleared again by the next real free()).
+pub fn inject_epoch_pending<F: Fl>(tx: &F::Tx) {
+    F::raise_epoch_signal(tx);
+    #[cfg(not(kani))]
+    F::preload_retirements(tx, 21);
+}
